@@ -301,8 +301,17 @@ def drv_of(spec):
             toks.append(f'{len(m)} ' + ' '.join(map(str, m)))
         return ' '.join(toks) + ' ' + e, rates
     if k == 'frz':
-        return None     # needs exact frozen values: see frz_exact
+        ex = FRZ_EXACT.get(spec)
+        if ex is None:
+            return None
+        toks = [f'frz {len(ex)}']
+        for i in sorted(ex):
+            toks.append(f'{i} {ex[i].tokens()}')
+        return ' '.join(toks) + ' ' + e, [r for i, r in enumerate(rates) if i not in ex]
     return None
+
+
+FRZ_EXACT: dict = {}     # frz spec -> {index: Pt} when every frozen value is an exact point
 
 
 # ============================================================= discovery
@@ -451,6 +460,16 @@ def composed_constructions(pool, rng, thorough):
         k = rng.randint(0, n)
         idxs = rng.sample(range(n), k)
         rng.shuffle(idxs)          # dict order != sorted order on purpose
+        d = drv_of(inner[0])
+        if d is not None and len(d[1]) == n and rng.random() < 0.7:
+            pts = [pt_eighth(rng.randrange(8)) if rng.random() < 0.4 and d[1][i] in ('half', 'full')
+                   else pt_rational(Fraction(rng.randint(-9, 9), rng.randint(1, 9)))
+                   for i in idxs]
+            vals = [value_for(d[1][i], p.phi) for i, p in zip(idxs, pts)]
+            sp = ('frz', inner[0], tuple(zip(idxs, vals)))
+            FRZ_EXACT[sp] = dict(zip(idxs, pts))
+            out.append(sp)
+            continue
         vals = [rng.choice([0.0, PI / 2, -PI, 3 * PI / 2, rng.uniform(-7, 7),
                             2 * math.atan2(4, 3), 123.456]) for _ in idxs]
         out.append(('frz', inner[0], tuple(zip(idxs, vals))))
@@ -483,6 +502,20 @@ def composed_constructions(pool, rng, thorough):
         ren = {x: i for i, x in enumerate(used)}
         chosen = tuple(tuple(ren[x] for x in l) for l in chosen)
         out.append(('vlg', inner[0], chosen, ()))
+    # --- deterministic edge constructions
+    RY, U3, X = ('cls', 'RYGate', ()), ('cls', 'U3Gate', ()), ('cls', 'XGate', ())
+    out += [
+        ('pow', ('ctrl', RY, 1, 3, None), 0), ('pow', ('ctrl', RY, 1, 3, None), -2),
+        ('pow', ('emb', RY, 3, None), 0), ('pow', ('emb', RY, 5, (1, 4)), 3),
+        ('pow', U3, 0), ('pow', U3, 1), ('pow', U3, -1),
+        ('ctrl', U3, 3, 2, None), ('ctrl', X, 2, (3, 2), ((0, 2), 1)),
+        ('ctrl', ('cls', 'ShiftGate', (3,)), 1, 3, ((1, 2),)),
+        ('ctrl', RY, 1, 5, ((4, 0, 2),)), ('ctrl', RY, 1, 4, 0),
+        ('emb', ('cls', 'CNOTGate', ()), (3, 3), ((2, 0), (1, 2))),
+        ('emb', U3, 5, (4, 1)), ('emb', ('cls', 'ShiftGate', (3,)), 4, (3, 0, 1)),
+        ('frz', U3, ()), ('frz', ('cls', 'CUGate', ()), ((3, 0.5), (0, 1.5), (2, -0.25))),
+        ('dag', ('dag', U3)), ('dag', ('pow', U3, 2)), ('tag', ('dag', X), 't'),
+    ]
     # --- nested compositions (depth 2)
     firsts = [s for s in out if s[0] in ('ctrl', 'pow', 'dag', 'frz', 'emb', 'tag')]
     for _ in range(n_each * 2):
@@ -684,24 +717,37 @@ def fd_grad(g, vals, i):
 
 
 SMOOTHLESS = ('VariableUnitaryGate', 'VariableLocationGate')
+LEAFLIKE = ('CKMGate', 'CKMdgGate', 'U3Gate', 'U2Gate', 'U8Gate', 'CUGate', 'PhasedXZGate',
+            'U1qGate', 'FSIMGate')
 
 
 def run_task(task):
     """One construction, all its points.  Runs in a worker process."""
+    try:
+        return _run_task(task)
+    except Exception:
+        import traceback
+        return {'idx': task[0], 'error': traceback.format_exc(), 'spec': repr(task[1])}
+
+
+def _run_task(task):
     warnings.simplefilter('ignore')
     from bqskit.ir.circuit import Circuit  # noqa: F401
     from bqskit.ir.gates.composedgate import ComposedGate
     from bqskit.ir.gates.generalgate import GeneralGate
     from bqskit.qis.unitary.optimizable import LocallyOptimizableUnitary
     from bqskit.qis.unitary.unitarymatrix import UnitaryMatrix
-    idx, spec, points, seed, want_exact = task
+    idx, spec, points, seed, want_exact = task[:5]
+    skip_opt = len(task) > 5 and task[5]
     res = {'idx': idx, 'viol': [], 'exact': [], 'counts': {}, 'meta': None, 'bad': set()}
     name = spec_name(spec)
     oc = outer_class(spec)
     rs = np.random.RandomState(seed)
 
+    detail = ':power0' if spec[0] == 'pow' and spec[2] == 0 else ''
+
     def viol(oracle, what, replay, found=True):
-        res['viol'].append((f'{oracle}:{oc}', f'{name}: {what}',
+        res['viol'].append((f'{oracle}:{oc}{detail}', f'{name}: {what}',
                             dict(replay, spec=repr(spec), name=name), found))
         res['bad'].add(oracle)
 
@@ -764,7 +810,9 @@ def run_task(task):
         try:
             UM = g.get_unitary(vals)
         except Exception as e:
-            viol('unitary', f'get_unitary raised {type(e).__name__}: {e}', rep)
+            viol('unitary-raises-' + type(e).__name__,
+                 f'get_unitary raised {type(e).__name__}: {e}', rep)
+            res['bad'].add('unitary')
             continue
         U = np.asarray(UM.numpy if hasattr(UM, 'numpy') else UM)
         if not isinstance(UM, UnitaryMatrix):
@@ -819,7 +867,11 @@ def run_task(task):
                 viol('grad', 'is_differentiable() but get_grad raises '
                      'NotImplementedError', rep)
         except Exception as e:
-            viol('grad', f'get_grad raised {type(e).__name__}: {e}', rep)
+            if declared_diff is not False:
+                viol('grad-raises-' + type(e).__name__,
+                     f'get_grad raised {type(e).__name__}: {e}', rep)
+            else:
+                cnt('not_differentiable')
         if G is not None:
             if np_ == 0:
                 if G.size != 0:
@@ -834,9 +886,9 @@ def run_task(task):
                 sc = max(1.0, float(np.abs(G[i]).max()), float(np.abs(F).max()))
                 e3 = float(np.abs(F - G[i]).max())
                 if not (e3 < FD_TOL * sc * max(1.0, abs(vals[i]) * 1e-3)):
-                    viol(f'grad-fd', f'get_grad[{i}] differs from the central '
+                    viol(f'grad-fd[{i if oc in LEAFLIKE else "*"}]',
+                         f'get_grad[{i}] differs from the central '
                          f'difference of get_unitary by {e3:.3g}', dict(rep, index=i))
-                    break
         # ---- get_unitary_and_grad agrees with both
         try:
             UG = g.get_unitary_and_grad(vals)
@@ -845,6 +897,9 @@ def run_task(task):
             cnt('ug')
             if U2.shape != U.shape or float(np.abs(U2 - U).max()) > UG_TOL:
                 viol('ug-unitary', 'get_unitary_and_grad()[0] != get_unitary()', rep)
+            elif hasattr(UG[0], 'radixes') and tuple(UG[0].radixes) != rad:
+                viol('ug-radixes', f'get_unitary_and_grad()[0] has radixes '
+                     f'{tuple(UG[0].radixes)}, the gate {rad}', rep)
             if G is not None:
                 if G2.size != G.size or (G.size and (
                         G2.shape != G.shape or float(np.abs(G2 - G).max()) > UG_TOL)):
@@ -854,7 +909,9 @@ def run_task(task):
                 viol('ug-grad', 'get_grad works but get_unitary_and_grad raises '
                      'NotImplementedError', rep)
         except Exception as e:
-            viol('ug', f'get_unitary_and_grad raised {type(e).__name__}: {e}', rep)
+            if declared_diff is not False:
+                viol('ug-raises-' + type(e).__name__,
+                     f'get_unitary_and_grad raised {type(e).__name__}: {e}', rep)
         # ---- inverse
         if gi is not None:
             try:
@@ -878,6 +935,8 @@ def run_task(task):
             res['exact'].append((kind, [p.tokens() for p in ex], vals, U,
                                  G if (G is not None and np_ > 0) else None, Ui))
 
+    if res['bad'] & {'unitary', 'shape', 'metadata'}:
+        return res
     # ---- calc_params (general gates): reproduce the argument
     if isinstance(g, GeneralGate):
         for t in range(4):
@@ -897,64 +956,79 @@ def run_task(task):
                 viol('calc-params', f'calc_params raised {type(e).__name__}: {e}',
                      {'params': p0})
                 break
-    # ---- optimize: best approximation of the environment
+    # ---- optimize: best approximation of the environment.  The documentation
+    # asks for arg max Re tr(env U); approximation in BQSKit is measured up to a
+    # global phase (|tr(env U)|).  A result is accepted when it is optimal for
+    # either objective; which one is recorded in the evidence.
     opt = isinstance(g, LocallyOptimizableUnitary)
     if isinstance(g, ComposedGate):
         try:
             opt = opt and g.is_locally_optimizable()
         except Exception:
             opt = False
-    if opt and dim <= 16:
+    if opt and dim <= 16 and not skip_opt:
         import scipy.optimize as so
+
+        def tr_of(env, p):
+            return np.trace(env @ np.asarray(g.get_unitary(list(p)).numpy))
+
+        def search(fn, starts):
+            best, arg = -np.inf, None
+            for c in starts:
+                v = fn(c)
+                if v > best:
+                    best, arg = v, list(c)
+            if oc not in SMOOTHLESS and np_ <= 20:
+                for s0 in (arg, starts[-1]):
+                    try:
+                        r = so.minimize(lambda p: -fn(p), s0, method='Nelder-Mead',
+                                        options={'maxiter': 300 * np_, 'xatol': 1e-9,
+                                                 'fatol': 1e-12})
+                        if -r.fun > best:
+                            best, arg = -r.fun, [float(x) for x in r.x]
+                    except Exception:
+                        pass
+            return best, arg
         for t in range(3):
             env = rs.normal(size=(dim, dim)) + 1j * rs.normal(size=(dim, dim))
-            if t == 2:   # environment of a nearby gate: env = U(p)^dag
-                env = np.asarray(g.get_unitary(list(rs.uniform(-PI, PI, size=np_))).numpy).conj().T
+            if t == 2 and np_:   # environment of a nearby gate: env = U(p)^dag
+                env = np.asarray(g.get_unitary(
+                    list(rs.uniform(-PI, PI, size=np_))).numpy).conj().T
+            envrep = {'env': [[(float(z.real), float(z.imag)) for z in row] for row in env]}
             try:
                 ps = list(g.optimize(env))
             except NotImplementedError:
                 break
             except Exception as e:
-                viol('optimize', f'optimize raised {type(e).__name__}: {e}',
-                     {'env_seed': seed, 'trial': t})
+                viol('optimize-raises-' + type(e).__name__,
+                     f'optimize raised {type(e).__name__}: {e}', envrep)
                 break
             cnt('optimize')
             if len(ps) != np_:
-                viol('optimize', f'optimize returned {len(ps)} parameters, '
-                     f'expected {np_}', {'trial': t})
+                viol('optimize-length', f'optimize returned {len(ps)} parameters, '
+                     f'expected {np_}', envrep)
                 break
-            general = isinstance(g, GeneralGate)
-
-            def f(p):
-                tr = np.trace(env @ np.asarray(g.get_unitary(list(p)).numpy))
-                return abs(tr) if general else tr.real
-            best = f(ps)
             if np_ == 0:
                 continue
-            cand = [list(rs.uniform(-PI, PI, size=np_)) for _ in range(60)]
-            vals_ = sorted(((f(c), c) for c in cand), key=lambda x: -x[0])
-            top = vals_[0]
-            starts = [top[1], ps]
-            bestalt, argalt = top[0], top[1]
-            if oc not in SMOOTHLESS and np_ <= 20:
-                for s0 in starts:
-                    try:
-                        r = so.minimize(lambda p: -f(p), s0, method='Nelder-Mead',
-                                        options={'maxiter': 400 * np_, 'xatol': 1e-9,
-                                                 'fatol': 1e-12})
-                        if -r.fun > bestalt:
-                            bestalt, argalt = -r.fun, list(r.x)
-                    except Exception:
-                        pass
-            sc = max(1.0, float(np.abs(env).sum()))
-            if bestalt > best + 1e-6 * sc:
-                obj = '|tr(env U)|' if general else 'Re tr(env U)'
-                viol('optimize', f'optimize(env) is not the arg max of {obj}: '
-                     f'returned value {best:.6g}, found {bestalt:.6g}',
-                     {'env': [[(z.real, z.imag) for z in row] for row in env],
-                      'returned': [float(x) for x in ps],
-                      'better': [float(x) for x in argalt]})
-                break
+            sc = 1e-6 * max(1.0, float(np.abs(env).sum()))
+            starts = [list(rs.uniform(-PI, PI, size=np_)) for _ in range(40)] + [ps]
+            got_re = tr_of(env, ps).real
+            got_abs = abs(tr_of(env, ps))
+            alt_re, arg_re = search(lambda p: tr_of(env, p).real, starts)
+            if alt_re <= got_re + sc:
+                cnt('optimize_optimal_for_Re_tr')
+                continue
+            alt_abs, arg_abs = search(lambda p: abs(tr_of(env, p)), starts)
+            if alt_abs <= got_abs + sc:
+                cnt('optimize_optimal_only_up_to_phase')
+                res['phase_only'] = True
+                continue
+            viol('optimize', 'optimize(env) maximises neither Re tr(env U) (returned '
+                 f'{got_re:.6g}, found {alt_re:.6g}) nor |tr(env U)| (returned '
+                 f'{got_abs:.6g}, found {alt_abs:.6g})',
+                 dict(envrep, returned=[float(x) for x in ps], better_re=arg_re,
+                      better_abs=arg_abs))
+            break
     return res
 
 
@@ -1042,16 +1116,16 @@ def run(ck: Check):
     nproc = min(14, os.cpu_count() or 2)
     ctx = mp.get_context('fork')
 
-    def run_batch(specs, phase):
+    def run_batch(specs, phase, bad_opt=frozenset()):
         tasks = []
         for i, s in enumerate(specs):
             try:
                 g = build(s)
                 np_ = g.num_params
             except Exception:
-                tasks.append((i, s, [], 0, False))
+                tasks.append((i, s, [], 0, False, False))
                 continue
-            d = drv_of(s) if s[0] != 'frz' else None
+            d = drv_of(s)
             rates = d[1] if d else None
             if rates is not None and len(rates) != np_:
                 rates = None
@@ -1062,9 +1136,13 @@ def run(ck: Check):
             pts = gen_points(s, np_, rates, r, thorough and np_ <= 8, large)
             if np_ > 8:       # many-parameter gates: fewer points
                 pts = pts[:8]
-            tasks.append((i, s, pts, rng.getrandbits(31), d is not None))
+            tasks.append((i, s, pts, rng.getrandbits(31), d is not None,
+                          bool(set(leaf_classes(s)) & bad_opt)))
         with ctx.Pool(nproc) as pool:
             results = pool.map(run_task, tasks, chunksize=max(1, len(tasks) // (nproc * 6)))
+        for r in results:
+            if 'error' in r:
+                raise InfraError(f'harness worker failed on {r["spec"]}:\n{r["error"]}')
         return tasks, results
 
     all_results = []
@@ -1075,7 +1153,10 @@ def run(ck: Check):
     VALUE = {'unitarity', 'grad-fd', 'grad', 'grad-shape', 'radixes', 'shape', 'unitary',
              'ug', 'ug-grad', 'ug-unitary', 'inverse', 'metadata', 'construct',
              'unitary-type'}
-    for (i, s, pts, _, _), r in zip(tasks1, res1):
+    bad_opt = set()
+    for (i, s, pts, *_), r in zip(tasks1, res1):
+        if any(o.startswith('optimize') for o in r['bad']):
+            bad_opt.add(outer_class(s))
         if r['meta'] is None or s in special_specs:
             continue
         if r['bad'] & VALUE:
@@ -1083,12 +1164,37 @@ def run(ck: Check):
             continue
         pool.append((s, r['meta'][0], r['meta'][1]))
     comp_specs = composed_constructions(pool, rng, thorough)
-    tasks2, res2 = run_batch(comp_specs, 'composed')
+    tasks2, res2 = run_batch(comp_specs, 'composed', frozenset(bad_opt))
     all_results += list(zip(tasks2, res2))
 
     # ---------------------------------------------------- collect violations
     covered = set()
-    for (i, s, pts, _, we), r in all_results:
+
+    def depth(sp):
+        return 0 if sp[0] in ('cls', 'obj', 'cutry', 'circ') else 1 + depth(sp[1])
+
+    def inner_nodes(sp):
+        out = []
+        while sp[0] not in ('cls', 'obj', 'cutry', 'circ'):
+            sp = sp[1]
+            out.append(outer_class(sp))
+        return out
+    # a violation of a composed gate is attributed to the innermost gate class that
+    # shows the same oracle failing on its own (shallower constructions first)
+    blamed = set()      # (oracle family, class)
+    for (i, s, pts, _, we, *_), r in sorted(all_results, key=lambda x: depth(x[0][1])):
+        keep = []
+        for sig, what, rep, f in r['viol']:
+            fam = sig.split(':')[0].split('[')[0].split('-')[0]
+            if any((fam, c) in blamed for c in inner_nodes(s)):
+                ck.bump('violations_attributed_to_inner_gate', sig)
+                continue
+            keep.append((sig, what, rep, f))
+        for sig, what, rep, f in keep:
+            fam = sig.split(':')[0].split('[')[0].split('-')[0]
+            blamed.add((fam, outer_class(s)))
+        r['viol'] = keep
+    for (i, s, pts, _, we, *_), r in all_results:
         covered.add(outer_class(s))
         for c in leaf_classes(s):
             covered.add(c)
@@ -1112,7 +1218,7 @@ def run(ck: Check):
 
     # -------------------------------------------- exact comparison with Lean
     lines, back = [], []
-    for (i, s, pts, _, we), r in all_results:
+    for (i, s, pts, _, we, *_), r in all_results:
         if not we or not r['exact']:
             continue
         e, rates = drv_of(s)
@@ -1201,7 +1307,7 @@ def run(ck: Check):
 
     # ----------------------------------------- equality classes across gates
     gates = []
-    for (i, s, pts, _, _), r in all_results:
+    for (i, s, pts, *_), r in all_results:
         if r['meta'] is None:
             continue
         try:
@@ -1371,6 +1477,7 @@ def malformed(ck, rng):
                          '(TypeError/ValueError documented)', {'call': label})
             continue
         ck.bump('malformed_outcome', 'accepted')
+        ck.bump('malformed_accepted', label)
         try:
             vals = [0.3] * g.num_params
             U = np.asarray(g.get_unitary(vals).numpy)
